@@ -11,13 +11,14 @@
 (*   Partial_Fold   `e op <number literal>` keeps the literal inside the node, which then    *)
 (*                  takes the numeric shortcut whenever e evaluates to a number.             *)
 (*                  FoldAnyRight = TRUE is a modelled regression: any literal is captured.   *)
+(*   FoldLeftConst = TRUE is another: && / || folded as soon as the LEFT operand is constant. *)
 (* (Block -> Scopeless_Block, For_Loop -> compiled loop, Assign_Decl and Unused_Return       *)
 (*  change no ChaiCore-observable behaviour by construction; their effect on the real        *)
 (*  engine is covered by the differential replay with both parsers.)                         *)
 (* OptEquiv: Run(Opt(p)) = Run(p) for every program handed in.                               *)
 EXTENDS ChaiCore
 
-CONSTANTS DropIds, FoldAnyRight
+CONSTANTS DropIds, FoldAnyRight, FoldLeftConst
 
 IsLit(e) == e.k \in {"int", "bool", "str"}
 IntLit(v) == [k |-> "int", v |-> v]
@@ -53,6 +54,10 @@ OptE(e) ==
     [] e.k = "bin" -> FoldBin([e EXCEPT !.l = OptE(e.l), !.r = OptE(e.r)])
     [] e.k \in {"and", "or"} -> (LET l == OptE(e.l)  r == OptE(e.r) IN
                                  IF l.k = "bool" /\ r.k = "bool" THEN BoolLit(IF e.k = "and" THEN l.v /\ r.v ELSE l.v \/ r.v)
+                                 \* modelled regression: a constant LEFT operand is enough - `true && x` and `false || x` become x itself
+                                 \* (losing the check that x is boolean and the fresh const result), `false && x` / `true || x` the constant
+                                 ELSE IF FoldLeftConst /\ l.k = "bool" THEN
+                                        (IF e.k = "and" THEN (IF l.v THEN r ELSE BoolLit(FALSE)) ELSE (IF l.v THEN BoolLit(TRUE) ELSE r))
                                  ELSE [e EXCEPT !.l = l, !.r = r])
     [] e.k = "not" -> [e EXCEPT !.e = OptE(e.e)]                      \* not folded: the run-time operator yields a non-const temporary
     [] e.k = "neg" -> (LET x == OptE(e.e) IN IF x.k = "int" THEN IntLit(0 - x.v) ELSE [e EXCEPT !.e = x])
